@@ -280,7 +280,9 @@ pub fn check_labels(text: &str, planted: &Planted, gates: &Gates) -> Result<bool
             // label starts at an occurrence of the instance name and ends at the closing ')' of that call
             // (comments inside the invocation may contain anything: judged with comments removed)
             let mut bare = String::new();
-            let mut rest = covered;
+            // (line comments first: from `//` to the end of the line)
+            let no_line_comments: String = covered.lines().map(|l| match l.find("//") { Some(p) => &l[..p], None => l }).collect::<Vec<_>>().join("\n");
+            let mut rest = no_line_comments.as_str();
             while let Some(a) = rest.find("(*") {
                 bare.push_str(&rest[..a]);
                 match rest[a..].find("*)") {
